@@ -8,7 +8,8 @@ Compounds: if, if-else, while[-else], for x in range / in a sequence [-else], tr
 try-finally, try-except-else-finally, with (plain, suppressing, `as x`), match (literal/wildcard, literal/capture x,
 sequence pattern/wildcard, literal/class pattern).  The body of every try statement and of the suppressing with is
 interleaved with a conditional raise at EVERY position, so every exception edge out of a try body is taken.
-Bound: <= 3 nodes (atoms + compounds), nesting <= 2, sequence length <= 3 (<= 2 inside compounds); thorough adds
+Bound: <= 3 nodes (atoms + compounds), nesting <= 2, sequence length <= 3 (<= 2 inside compounds), plus all 4-node
+single-statement programs loop(try(..)) that contain a break/continue (leaving a try inside a loop); thorough adds
 all 4-node programs over {assign, del, read} x {while, for, try-except, try-finally, try-except-as-x, match}.  Every
 program is generated with and without an `x = 1` prologue and ends with an epilogue that probes the final binding
 state of x (bare `x` statement and a call argument) and of y under try/except.  Every branch, loop count (0/1/2) and conditional raise reads its own digit of
@@ -28,7 +29,8 @@ TECHNIQUE = 'exhaustive statement-grammar programs over {x,y} x all branch/loop-
 LEVEL_TEXT = ('Every function body of the grammar {x=1, del x, read x; thorough: y=x, conditional raise/return, closure/lambda/'
               'comprehension read; break/continue under a condition in loops} nested in {if, if-else, while[-else], for x[-else] (range and '
               'sequence), try-except, try-except-as-x, try-finally, try-except-else-finally, with (plain/suppressing/as x), '
-              'match (literal/wildcard/capture x/sequence/class patterns)} with <= 3 nodes (thorough: plus 4 nodes over a reduced alphabet), nesting <= 2, '
+              'match (literal/wildcard/capture x/sequence/class patterns)} with <= 3 nodes (plus the 4-node loop(try(break/continue)) '
+              'programs; thorough: plus 4 nodes over a reduced alphabet), nesting <= 2, '
               'try bodies interleaved with conditional raises at every position, with and without an initial binding of x, is compiled with error_on_uninitialized on and off and called on '
               'ALL digit vectors (every branch taken/not taken, every loop run 0/1/2 times); the ordered log of completed '
               'atoms with the values read, the exception type and a final probe of x and y must equal CPython; every '
@@ -53,8 +55,15 @@ _INFO = {}     # program tag -> {site id: path string}
 
 def _family(tier):
     progs = gen.programs(3, atoms=('A', 'D', 'R') if tier == 'quick' else gen.ATOMS_CORE + gen.ATOMS_EXTRA)
+    seen = set(progs)
+    # break / continue out of a try statement inside a loop needs 4 nodes: all such single-statement programs
+    for p in gen.programs(4, top_len=1, inner_len=2, atoms=('A', 'D', 'R'), forms=('wh', 'forx', 'te', 'tf')):
+        st = p[1][0]
+        if (p not in seen and st[0] in ('wh', 'forx') and any(len(c) > 1 and c[0] in ('te', 'tf') for c in st[1])
+                and any(k[0] in ('B', 'K') for k in gen._walk(p[1]))):
+            seen.add(p)
+            progs.append(p)
     if tier != 'quick':
-        seen = set(progs)
         for p in gen.programs(4, top_len=2, inner_len=2, atoms=('A', 'D', 'R'), forms=('wh', 'forx', 'te', 'tf', 'tex', 'ms')):
             if p not in seen:
                 progs.append(p)
